@@ -730,36 +730,40 @@ class EncodingParser(object):
             # if we have <meta not followed by a space or a slash just keep going
             return True
         # We have a valid meta element we want to search for attributes
-        hasPragma = False
-        pendingEncoding = None
+        attrNames = []  # a later attribute of the same name is ignored
+        gotPragma = False
+        needPragma = None
+        charset = None
+        charsetFailed = False
         while True:
             # Try to find the next attribute after the current position
             attr = self.getAttribute()
             if attr is None:
-                return True
-            else:
-                if attr[0] == b"http-equiv":
-                    hasPragma = attr[1] == b"content-type"
-                    if hasPragma and pendingEncoding is not None:
-                        self.encoding = pendingEncoding
-                        return False
-                elif attr[0] == b"charset":
-                    tentativeEncoding = attr[1]
+                break
+            if attr[0] in attrNames:
+                continue
+            attrNames.append(attr[0])
+            if attr[0] == b"http-equiv":
+                if attr[1] == b"content-type":
+                    gotPragma = True
+            elif attr[0] == b"content":
+                contentParser = ContentAttrParser(EncodingBytes(attr[1]))
+                tentativeEncoding = contentParser.parse()
+                if (tentativeEncoding is not None and
+                        charset is None and not charsetFailed):
                     codec = lookupEncoding(tentativeEncoding)
                     if codec is not None:
-                        self.encoding = codec
-                        return False
-                elif attr[0] == b"content":
-                    contentParser = ContentAttrParser(EncodingBytes(attr[1]))
-                    tentativeEncoding = contentParser.parse()
-                    if tentativeEncoding is not None:
-                        codec = lookupEncoding(tentativeEncoding)
-                        if codec is not None:
-                            if hasPragma:
-                                self.encoding = codec
-                                return False
-                            else:
-                                pendingEncoding = codec
+                        charset = codec
+                        needPragma = True
+            elif attr[0] == b"charset":
+                charset = lookupEncoding(attr[1])
+                charsetFailed = charset is None
+                needPragma = False
+        # All attributes have been seen: is there a declaration?
+        if needPragma is None or (needPragma and not gotPragma) or charset is None:
+            return True
+        self.encoding = charset
+        return False
 
     def handlePossibleStartTag(self):
         return self.handlePossibleTag(False)
